@@ -1,8 +1,10 @@
 mod alloc;
 mod chooser;
 mod explore;
+mod lifecycle;
 mod net;
 mod props;
+mod replay;
 mod report;
 mod scenario;
 mod types;
@@ -21,10 +23,12 @@ fn main() {
         std::process::exit(2);
     }
     let code = match args[1].as_str() {
+        "replay" => replay::replay(args.get(2).map(String::as_str).unwrap_or("")),
         "C01" => props::core::c01(),
         "C02" => props::core::c02(),
         "C03" => props::core::c03(),
         "C04" => props::core::c04(),
+        "C07" => props::drop::c07(),
         "C13" => props::synctest::c13(),
         "C14" => props::codec::c14(),
         "worker-c14" => props::codec::worker(&args[2..]),
